@@ -10,20 +10,21 @@ import (
 // Effects is a flow-insensitive mod/ref summary of one function body.
 // Fields are identified by their *types.Var (field-sensitive, object-insensitive).
 type Effects struct {
-	FieldW     map[*types.Var]token.Pos // field assigned (x.f = .., x.f++, &x.f handed to a call, range key/value)
-	ElemW      map[*types.Var]token.Pos // contents reachable through the field modified (x.f[i] = .., copy(x.f,..), delete(x.f,k), ..)
-	GlobW      map[*types.Var]token.Pos // package-level variable assigned or its contents modified
-	LocalW     map[*types.Var]token.Pos // local variables / parameters assigned (incl. captured ones)
-	ParamEW    map[*types.Var]token.Pos // contents reachable through a parameter/local modified
-	FieldR     map[*types.Var]token.Pos
-	GlobR      map[*types.Var]token.Pos
-	Calls      map[*types.Func]token.Pos // statically resolved callees (origin objects), package-internal and external
-	Dyn        []*ast.CallExpr           // dynamic calls (function values, interface methods)
-	Lits       map[*FuncInfo]bool        // function literals defined in the body (may be called later)
-	ChanOps    []ChanOp
-	Gos        []*ast.GoStmt
-	HeapCalls  []*ast.CallExpr // container/heap.X(h, ..) calls
-	ParamCalls []*ast.CallExpr // calls of function-typed parameters
+	FieldW      map[*types.Var]token.Pos // field assigned (x.f = .., x.f++, &x.f handed to a call, range key/value)
+	ElemW       map[*types.Var]token.Pos // contents reachable through the field modified (x.f[i] = .., copy(x.f,..), delete(x.f,k), ..)
+	GlobW       map[*types.Var]token.Pos // package-level variable assigned or its contents modified
+	LocalW      map[*types.Var]token.Pos // local variables / parameters assigned (incl. captured ones)
+	ParamEW     map[*types.Var]token.Pos // contents reachable through a parameter/local modified
+	ParamEWDeep map[*types.Var]token.Pos // only contents two or more indirections away modified (x[i][j] = .., writer(x[i]))
+	FieldR      map[*types.Var]token.Pos
+	GlobR       map[*types.Var]token.Pos
+	Calls       map[*types.Func]token.Pos // statically resolved callees (origin objects), package-internal and external
+	Dyn         []*ast.CallExpr           // dynamic calls (function values, interface methods)
+	Lits        map[*FuncInfo]bool        // function literals defined in the body (may be called later)
+	ChanOps     []ChanOp
+	Gos         []*ast.GoStmt
+	HeapCalls   []*ast.CallExpr // container/heap.X(h, ..) calls
+	ParamCalls  []*ast.CallExpr // calls of function-typed parameters
 }
 
 type ChanOp struct {
@@ -37,7 +38,7 @@ type ChanOp struct {
 
 func newEffects() *Effects {
 	return &Effects{FieldW: map[*types.Var]token.Pos{}, ElemW: map[*types.Var]token.Pos{}, GlobW: map[*types.Var]token.Pos{}, LocalW: map[*types.Var]token.Pos{},
-		ParamEW: map[*types.Var]token.Pos{}, FieldR: map[*types.Var]token.Pos{}, GlobR: map[*types.Var]token.Pos{}, Calls: map[*types.Func]token.Pos{}, Lits: map[*FuncInfo]bool{}}
+		ParamEW: map[*types.Var]token.Pos{}, ParamEWDeep: map[*types.Var]token.Pos{}, FieldR: map[*types.Var]token.Pos{}, GlobR: map[*types.Var]token.Pos{}, Calls: map[*types.Func]token.Pos{}, Lits: map[*FuncInfo]bool{}}
 }
 
 // pure external functions: never write through their arguments.
@@ -206,7 +207,11 @@ func (p *Prog) nodeEffects(root ast.Node, self ast.Node) *Effects {
 		case v != nil && direct:
 			ef.LocalW[v] = pos
 		case v != nil:
-			ef.ParamEW[v] = pos
+			if indexDepth(lhs) >= 2 {
+				ef.ParamEWDeep[v] = pos
+			} else {
+				ef.ParamEW[v] = pos
+			}
 		}
 	}
 	var contentWrite func(arg ast.Expr, pos token.Pos)
@@ -233,7 +238,11 @@ func (p *Prog) nodeEffects(root ast.Node, self ast.Node) *Effects {
 		case v != nil && p.isGlobal(v):
 			ef.GlobW[v] = pos
 		case v != nil:
-			ef.ParamEW[v] = pos
+			if indexDepth(arg)+1 >= 2 {
+				ef.ParamEWDeep[v] = pos
+			} else {
+				ef.ParamEW[v] = pos
+			}
 		}
 	}
 	var selectStack []*ast.SelectStmt
@@ -864,16 +873,21 @@ func (p *Prog) paramWrites(fi *FuncInfo) map[int]bool {
 		}
 	}
 	ef := p.Effects(fi)
-	for v := range ef.ParamEW {
-		if k, ok := idx[v]; ok {
-			res[k] = true
+	for _, m := range []map[*types.Var]token.Pos{ef.ParamEW, ef.ParamEWDeep} {
+		for v := range m {
+			if k, ok := idx[v]; ok {
+				res[k] = true
+			}
 		}
 	}
 	// literals defined inside (e.g. range-over-func bodies) count too
 	for l := range ef.Lits {
-		for v := range p.Effects(l).ParamEW {
-			if k, ok := idx[v]; ok {
-				res[k] = true
+		le := p.Effects(l)
+		for _, m := range []map[*types.Var]token.Pos{le.ParamEW, le.ParamEWDeep} {
+			for v := range m {
+				if k, ok := idx[v]; ok {
+					res[k] = true
+				}
 			}
 		}
 	}
@@ -968,4 +982,28 @@ func (p *Prog) isParam(v *types.Var) bool {
 		p.memo["params"] = m
 	}
 	return m[v]
+}
+
+// indexDepth counts the element selections (x[i], *x) between the root variable
+// and the expression: x -> 0, x[i] -> 1, x[i][a:b] -> 1, x[i][j] -> 2.
+func indexDepth(e ast.Expr) int {
+	d := 0
+	for {
+		switch x := ast.Unparen(e).(type) {
+		case *ast.IndexExpr:
+			d++
+			e = x.X
+		case *ast.StarExpr:
+			d++
+			e = x.X
+		case *ast.SliceExpr:
+			e = x.X
+		case *ast.SelectorExpr:
+			e = x.X
+		case *ast.UnaryExpr:
+			e = x.X
+		default:
+			return d
+		}
+	}
 }
